@@ -725,20 +725,31 @@ func (r *Run) iterOps(io *iterObj, n int) {
 		_, s := model.SplitKey(o.Upper)
 		return s != ""
 	}
+	// pending holds the remaining ops of a compound "bounds walk": a window of
+	// bounds derived from the previous one (adjacent forward / backward, or
+	// overlapping) followed by a seek at one of its edges and a few steps. It
+	// drives the bounds-monotonicity optimisations of the sstable and level
+	// iterators, including across a prefix seek that a bloom filter rejects.
+	var pending []string
+	var forcedBounds *[2]string
+	var forcedKey string
 	for i := 0; i < n && !r.failed; i++ {
 		var ops []string
-		if !m.Positioned() {
-			ops = []string{"First", "Last", "SeekGE", "SeekLT", "SeekPrefixGE"}
+		if len(pending) > 0 {
+			ops = pending[:1]
+			pending = pending[1:]
+		} else if !m.Positioned() {
+			ops = []string{"First", "Last", "SeekGE", "SeekLT", "SeekPrefixGE", "SetBounds", "BoundsWalk"}
 			if r.K.Limits {
 				ops = append(ops, "SeekGEWithLimit", "SeekLTWithLimit")
 			}
 		} else if m.InPrefixMode() {
-			ops = []string{"Next", "Next", "Next", "SeekPrefixGE", "SeekPrefixGE", "SeekGE", "First", "Last", "SeekLT"}
+			ops = []string{"Next", "Next", "Next", "SeekPrefixGE", "SeekPrefixGE", "SeekGE", "First", "Last", "SeekLT", "SetBounds", "BoundsWalk"}
 			if !upperHasSuffix() { // NextPrefix with a suffixed upper bound is a documented error
 				ops = append(ops, "NextPrefix")
 			}
 		} else {
-			ops = []string{"Next", "Next", "Next", "Next", "Prev", "Prev", "Prev", "SeekGE", "SeekGE", "SeekLT", "SeekLT", "First", "Last", "SeekPrefixGE", "SetBounds"}
+			ops = []string{"Next", "Next", "Next", "Next", "Prev", "Prev", "Prev", "SeekGE", "SeekGE", "SeekLT", "SeekLT", "First", "Last", "SeekPrefixGE", "SetBounds", "BoundsWalk", "BoundsWalk"}
 			if io.batch == nil {
 				ops = append(ops, "SetOptions")
 			}
@@ -750,6 +761,9 @@ func (r *Run) iterOps(io *iterObj, n int) {
 			}
 		}
 		op := ops[r.rng.IntN(len(ops))]
+		if (op == "Next" || op == "Prev") && !m.Positioned() {
+			continue // a step of a bounds walk whose seek was not issued
+		}
 		switch op {
 		case "First":
 			trace = append(trace, "First")
@@ -759,18 +773,90 @@ func (r *Run) iterOps(io *iterObj, n int) {
 			trace = append(trace, "Last")
 			exp, ok := m.Last()
 			check(op, it.Last(), exp, ok)
+		case "BoundsWalk":
+			o := m.Opts()
+			var lo, hi string
+			for try := 0; try < 8; try++ {
+				switch {
+				case o.HasLower && o.HasUpper && r.rng.IntN(5) < 2: // adjacent, forward
+					lo, hi = o.Upper, r.randSeekKey()
+				case o.HasLower && o.HasUpper && r.rng.IntN(3) < 1: // adjacent, backward
+					lo, hi = r.randSeekKey(), o.Lower
+				case o.HasLower && o.HasUpper && r.rng.IntN(2) == 0: // overlapping, forward
+					lo, hi = r.randSeekKey(), r.randSeekKey()
+					if model.Cmp(lo, o.Lower) < 0 || model.Cmp(lo, o.Upper) > 0 {
+						lo = o.Lower
+					}
+				default:
+					lo, hi = r.randSeekKey(), r.randSeekKey()
+					if model.Cmp(lo, hi) > 0 {
+						lo, hi = hi, lo
+					}
+				}
+				if model.Cmp(lo, hi) < 0 {
+					break
+				}
+				lo, hi = "", ""
+			}
+			if lo == "" && hi == "" {
+				continue
+			}
+			forcedBounds = &[2]string{lo, hi}
+			r.count("bounds_walk_windows", 1)
+			// the seek that follows the new window
+			var seek string
+			switch r.rng.IntN(8) {
+			case 0, 1, 2:
+				seek, forcedKey = "SeekGE", lo
+			case 3:
+				seek, forcedKey = "SeekLT", hi
+			case 4:
+				seek, forcedKey = "SeekGE", r.randSeekKey()
+			case 5, 6:
+				seek, forcedKey = "SeekPrefixGE", r.randKey()
+				if r.rng.IntN(2) == 0 {
+					// a prefix that probably exists in no table (bloom filter miss)
+					seek, forcedKey = "SeekPrefixGE", r.randPrefix()+"\x00"+r.randSuffix()
+					if lp, _ := model.SplitKey(lo); r.rng.IntN(2) == 0 {
+						forcedKey = lp + r.randSuffix()
+					}
+				}
+			default:
+				seek = pick(r.rng, "First", "Last")
+			}
+			pending = append(pending[:0], "SetBounds", seek)
+			for j, nsteps := 0, r.rng.IntN(3); j < nsteps; j++ {
+				if seek == "SeekPrefixGE" || seek == "SeekGE" || seek == "First" {
+					pending = append(pending, "Next")
+				} else {
+					pending = append(pending, "Prev")
+				}
+			}
+			if r.rng.IntN(2) == 0 {
+				pending = append(pending, "BoundsWalk")
+			}
+			continue
 		case "SeekGE":
 			k := r.seekKeyFor(m, i)
+			if forcedKey != "" {
+				k, forcedKey = forcedKey, ""
+			}
 			trace = append(trace, "SeekGE("+k+")")
 			exp, ok := m.SeekGE(k)
 			check(op+"("+k+")", it.SeekGE([]byte(k)), exp, ok)
 		case "SeekLT":
 			k := r.seekKeyFor(m, i)
+			if forcedKey != "" {
+				k, forcedKey = forcedKey, ""
+			}
 			trace = append(trace, "SeekLT("+k+")")
 			exp, ok := m.SeekLT(k)
 			check(op+"("+k+")", it.SeekLT([]byte(k)), exp, ok)
 		case "SeekPrefixGE":
 			k := r.randKey()
+			if forcedKey != "" {
+				k, forcedKey = forcedKey, ""
+			}
 			o := m.Opts()
 			if (o.HasLower && model.Cmp(k, o.Lower) < 0) || (o.HasUpper && model.Cmp(k, o.Upper) >= 0) {
 				// documented to error when the prefix differs from the bound's; not generated
@@ -814,6 +900,10 @@ func (r *Run) iterOps(io *iterObj, n int) {
 			mo := m.Opts()
 			nb := r.randIterOpts()
 			mo.HasLower, mo.Lower, mo.HasUpper, mo.Upper = nb.HasLower, nb.Lower, nb.HasUpper, nb.Upper
+			if forcedBounds != nil {
+				mo.HasLower, mo.Lower, mo.HasUpper, mo.Upper = true, forcedBounds[0], true, forcedBounds[1]
+				forcedBounds = nil
+			}
 			trace = append(trace, fmt.Sprintf("SetBounds(%v)", mo))
 			po := r.toPebbleOpts(mo, false)
 			it.SetBounds(po.LowerBound, po.UpperBound)
